@@ -166,7 +166,11 @@ struct World
                 if (r.chance(0.3)) gdT(i) = r.real(-1.0, 1.0);
             break;
         case 2: // single unit entry, any coefficient row (including c0..c_{s-1})
-            gdC((int)r.below((uint64_t)rows), (int)r.below(DIM)) = 1.0;
+        {
+            int rr = (int)r.below((uint64_t)rows);
+            int cc = (int)r.below(DIM);
+            gdC(rr, cc) = 1.0;
+        }
             break;
         case 3: // single duration entry
             gdT((int)r.below((uint64_t)N)) = 1.0;
